@@ -1,6 +1,6 @@
 """C16 - interpolation models reproduce their data and survive base shifts.
 
-E2 explicit-state search over histories of {replace point k, append point (growing / regression), shift base, re-fit}
+E2 explicit-state search over histories of {replace point k, append point (growing / regression), swap two points, shift base, re-fit}
 on a real dfols.model.Model, with points from a dyadic alphabet (so that base shifts are exact in floating point and
 only the linear algebra rounds), several base points (0, 1, 2^10, 2^20), n in {1,2,3}.  In every state the algebraic
 identities of the property are evaluated on a copy (fit -> interpolation / normal equations / Lagrange identities), and
@@ -70,6 +70,10 @@ def ops(st, params):
     out.append(["shift", "xopt"])
     out.append(["shift", "dyadic"])
     out.append(["fit"])
+    if params.get("swaps", True):
+        for k1 in range(K):
+            for k2 in range(k1 + 1, K):
+                out.append(["swap", k1, k2])
     return out
 
 
@@ -153,6 +157,10 @@ def apply(st, op, params, check=True):
                                 st["shift_viol"].append(("shift_refit", "re-fitted model differs at %s by %.3g after a base shift (tol %.3g, cond %.3g)" % (
                                     z.tolist(), float(np.max(np.abs(va - vb))), tt * zs * 10, c)))
                                 break
+        elif kind == "swap":
+            m.swap_points(op[1], op[2])
+            if m.factorisation_current:
+                st["shift_viol"].append(("cache_invalidated", "factorisation_current still True after swap_points"))
         elif kind == "fit":
             if m.npt() < 2:
                 raise Disabled("a single point cannot be fitted")
